@@ -328,3 +328,8 @@ def _flat(c):
     if c[0] == "not":
         return _flat(c[1])
     return [c]
+
+
+def run_thorough(ck, prog):
+    from props import thorough
+    ck.attempt(thorough.doc_pka, ck, prog)
